@@ -35,6 +35,13 @@ def run_case(prop, ctx, term, fn, shrink=True):
             ctx.fail('no_unexpected_exception', 'library raised %s\n%s' % (core.exc_str(e), txt))
         else:
             ctx.harness_errors.append({'case': term, 'trace': txt})
+    except BaseException as e:
+        # contract errors are BaseExceptions on purpose (nothing in the library can swallow them); wherever one surfaces it is a violation
+        if type(e).__name__ in ('InvariantBroken', 'PostBroken'):
+            ctx.ev('class_invariant')
+            ctx.fail('class_invariant', '%s: %s' % (type(e).__name__, e))
+        else:
+            raise
     if shrink and ctx.viol_count > before and ctx.violations and getattr(ctx, '_shrunk', 0) < 3 and getattr(prop, 'SHRINK', False):
         v = ctx.violations[-1]
         if v['case'] is term:
